@@ -100,6 +100,7 @@ void Level::initializeResidual(const DomainGeometry& domain_geometry,
 }
 void Level::computeResidual(Vector<double>& result, const Vector<double>& rhs, const Vector<double>& x) const
 {
+    GMGPOLAR_VERIF_TRACE("computeResidual", level_depth_, {&result, &rhs, &x});
     if (!op_residual_)
         throw std::runtime_error("Residual not initialized.");
     op_residual_->computeResidual(result, rhs, x);
@@ -137,6 +138,7 @@ void Level::initializeDirectSolver(const DomainGeometry& domain_geometry,
 
 void Level::directSolveInPlace(Vector<double>& x) const
 {
+    GMGPOLAR_VERIF_TRACE("directSolveInPlace", level_depth_, {&x});
     if (!op_directSolver_)
         throw std::runtime_error("Coarse Solver not initialized.");
     op_directSolver_->solveInPlace(x);
@@ -162,6 +164,7 @@ void Level::initializeSmoothing(const DomainGeometry& domain_geometry,
 }
 void Level::smoothing(Vector<double>& x, const Vector<double>& rhs, Vector<double>& temp) const
 {
+    GMGPOLAR_VERIF_TRACE("smoothing", level_depth_, {&x, &rhs, &temp});
     if (!op_smoother_)
         throw std::runtime_error("Smoother not initialized.");
     op_smoother_->smoothing(x, rhs, temp);
@@ -187,6 +190,7 @@ void Level::initializeExtrapolatedSmoothing(const DomainGeometry& domain_geometr
 }
 void Level::extrapolatedSmoothing(Vector<double>& x, const Vector<double>& rhs, Vector<double>& temp) const
 {
+    GMGPOLAR_VERIF_TRACE("extrapolatedSmoothing", level_depth_, {&x, &rhs, &temp});
     if (!op_extrapolated_smoother_)
         throw std::runtime_error("Extrapolated Smoother not initialized.");
     op_extrapolated_smoother_->extrapolatedSmoothing(x, rhs, temp);
